@@ -368,10 +368,10 @@ impl DateFilter for ds::MonthdayRange {
 
                 is_open_from_bounds(
                     date,
-                    (year - 1..=year + 1)
+                    (year - 2..=year + 2)
                         .filter_map(|y| date_on_year(*start, y, valid_ymd_after))
                         .map(|d| start_offset.apply(d)),
-                    (year - 1..=year + 1)
+                    (year - 2..=year + 2)
                         .filter_map(|y| date_on_year(*end, y, valid_ymd_before))
                         .map(|d| end_offset.apply(d)),
                 )
@@ -463,10 +463,10 @@ impl DateFilter for ds::MonthdayRange {
 
                 Some(next_change_from_bounds(
                     date,
-                    (year - 1..=year + 10)
+                    (year - 2..=year + 10)
                         .filter_map(|y| date_on_year(*start, y, valid_ymd_after))
                         .map(|d| start_offset.apply(d)),
-                    (year - 1..=year + 10)
+                    (year - 2..=year + 10)
                         .filter_map(|y| date_on_year(*end, y, valid_ymd_before))
                         .map(|d| end_offset.apply(d)),
                 ))
